@@ -660,12 +660,18 @@ class _TLock:
         self.release()
 
 
+ON_THREAD_EVENT_SET: typing.Optional[typing.Callable[[typing.Any], None]] = None  # installed by scen.make_pool (sync pools)
+
+
 class _TEvent:
     def __init__(self) -> None:
         self._flag = False
         self.waits: list[typing.Any] = []
 
     def set(self) -> None:
+        # the instant another thread may be made runnable: what it is going to read must be in place now
+        if ON_THREAD_EVENT_SET is not None:
+            ON_THREAD_EVENT_SET(self)
         self._flag = True
 
     def is_set(self) -> bool:
